@@ -630,8 +630,16 @@ static int real_wait(struct waitreq *rq, int slice, const sigset_t *mask)
 {
 	struct timespec ts = { 0, slice ? SLICE_US * 1000L : 0 };
 
-	if (rq->kind == VT_EPOLL_PWAIT2 || rq->kind == VT_EPOLL_WAIT)
-		return __real_epoll_pwait2(rq->epfd, rq->ev, rq->maxev, &ts, mask);
+	if (rq->kind == VT_EPOLL_PWAIT2 || rq->kind == VT_EPOLL_WAIT) {
+		static int no_pwait2;	/* e.g. under valgrind 3.19, which does not know the system call */
+		if (!no_pwait2) {
+			int r = __real_epoll_pwait2(rq->epfd, rq->ev, rq->maxev, &ts, mask);
+			if (r >= 0 || errno != ENOSYS)
+				return r;
+			no_pwait2 = 1;
+		}
+		return epoll_pwait(rq->epfd, rq->ev, rq->maxev, slice ? 1 : 0, mask);
+	}
 	return __real_ppoll(rq->pfd, rq->npfd, &ts, mask);
 }
 
